@@ -53,3 +53,98 @@ def walk(prog, make_args, ts, dom=sxvm.FLOAT):
                 guard += 1
         prev_t, prev_s = t, s
     return out
+
+
+# ---------------------------------------------------------------------------------------------------------------------------
+# generic harvesting for the Lie-group explorers: members next to every comparison the compiled operation makes along designed rays
+# ---------------------------------------------------------------------------------------------------------------------------
+_CACHE = {}
+
+
+def lie_members(B, op, seed, tier="quick"):
+    """raw parameter vectors (algebra vectors for exp / ad / wedge / Jacobians, group parameters otherwise) on both sides of every
+    comparison outcome change of the compiled operation `op` of the built group B along rays: rotation angle 0 .. 6.2 rad about a
+    coordinate, a diagonal and a generic axis (other slots fixed generic), and translation magnitude 0 .. 1e3.  A comparison that a
+    change introduces BETWEEN two alphabet members (a window, a table lookup, a guard) flips the signature somewhere between them and is
+    bisected down to adjacent doubles like the code's own thresholds."""
+    import numpy as np
+    from . import alpha, lib, ref
+    key = (B.name, op, seed, tier)
+    if key in _CACHE:
+        return _CACHE[key]
+    f = B.get(op)
+    out = []
+    if f is None:
+        _CACHE[key] = out
+        return out
+    prog = sxvm.compile_fn(f)
+    alg = op in ("exp", "ad", "wedge", "left_jacobian", "right_jacobian", "left_jacobian_inv", "right_jacobian_inv", "bracket")
+    layout = lib.alg_layout(B.G) if alg else lib.layout(B.G)
+    nin = f.n_in()
+    axs = alpha.axes(seed)
+    ray_axes = [axs[2], axs[3], axs[6]] if tier != "thorough" else [axs[0], axs[1], axs[2], axs[3], axs[5], axs[6], axs[9]]
+    angle_grid = sorted(set(alpha.ANGLES_FULL + alpha.ANGLES_BEYOND))
+    mag_grid = [0.0, 1e-9, 1e-6, 1e-3, 0.03, 0.3, 1.0, 3.0, 10.0, 100.0, 1e3]
+
+    def base_parts(zero_vec=False):
+        parts = []
+        for k, sl in enumerate(layout):
+            if sl[0] == "angle":
+                parts.append(np.array([0.4]))
+            elif sl[0] == "vec":
+                parts.append(np.zeros(sl[1]) if zero_vec else alpha.generic_vec(seed + k, sl[1]))
+            elif sl[0] == "rotvec":
+                parts.append(axs[6] * 0.7)
+            else:
+                parts.append(alpha.rot_reps(sl[1], axs[6] * 0.7)[0][1])
+        return parts
+
+    def second():
+        # the fixed second operand of binary operations
+        return list(np.concatenate(base_parts()))
+
+    def mk_for(slot, setter):
+        def mk(t):
+            parts = base_parts()
+            parts[slot] = setter(t)
+            a = [list(np.concatenate(parts))]
+            return a + [second()] * (nin - 1)
+        return mk
+    rays = []
+    for k, sl in enumerate(layout):
+        if sl[0] == "angle":
+            rays.append((mk_for(k, lambda t: np.array([t])), [-6.2, -4.0, -math.pi, -2.5, -0.7, -1e-3, 0.0, 1e-6, 1e-3, 0.3, 1.0, 2.5, math.pi, 4.0, 6.2]))
+        elif sl[0] == "vec":
+            d = alpha.generic_vec(seed + 3, sl[1])
+            d = d / max(np.linalg.norm(d), 1e-9)
+            rays.append((mk_for(k, lambda t, d=d: d * t), mag_grid))
+        elif sl[0] == "rotvec":
+            for ax in ray_axes:
+                rays.append((mk_for(k, lambda t, ax=ax: ax * t), angle_grid))
+        else:
+            kind = sl[1]
+            for ax in ray_axes:
+                def setter(t, ax=ax, kind=kind):
+                    reps = alpha.rot_reps(kind, ax * t)
+                    if not reps:  # inside the Euler gimbal band: use the band edge representative of the neighbouring angle
+                        reps = alpha.rot_reps(kind, ax * (t + 2.1e-3)) or alpha.rot_reps(kind, ax * (t - 2.1e-3))
+                    return reps[0][1]
+                rays.append((mk_for(k, setter), angle_grid))
+    for mk, grid in rays:
+        try:
+            for lo, hi in walk(prog, mk, grid):
+                for t in (lo, hi):
+                    p = np.array(mk(t)[0], dtype=float)
+                    if np.all(np.isfinite(p)):
+                        out.append(p)
+        except Exception:
+            continue  # a ray the representation cannot follow (e.g. no representative) contributes nothing
+    # de-duplicate
+    seen, uniq = set(), []
+    for p in out:
+        kb = p.tobytes()
+        if kb not in seen:
+            seen.add(kb)
+            uniq.append(p)
+    _CACHE[key] = uniq
+    return uniq
